@@ -64,10 +64,14 @@ def stf_vonKarman(r, L0):
         L0 is in unit of telescope diameter, typically a few (3; or 20m)
     '''
     r0 = 1
+    # x**(5/6) * K_5/6(x) is 0 * inf = NaN at x = 0 (its limit makes D_vk(0) = 0): evaluate away
+    # from zero and put in the exact value afterwards
+    sep = np.where(r == 0, L0, r)
     D_vk = (0.17253 * (L0 / (r0)) ** (5. / 3.)
-            * (1 - 2 * np.pi ** (5. / 6.) * ((r) / L0) ** (5. / 6.)
+            * (1 - 2 * np.pi ** (5. / 6.) * ((sep) / L0) ** (5. / 6.)
                / scipy.special.gamma(5. / 6.)
-               * scipy.special.kv(5. / 6., (2 * np.pi * r) / L0)))
+               * scipy.special.kv(5. / 6., (2 * np.pi * sep) / L0)))
+    D_vk = np.where(r == 0, 0., D_vk)
     return D_vk
 
 
